@@ -271,10 +271,13 @@ func (route *baseRoute) delDestination(index int, extendConfig baseCfgExtender) 
 	if index >= len(conf.Dests()) {
 		return fmt.Errorf("Invalid index %d", index)
 	}
-	conf.Dests()[index].Shutdown()
-	newDests := append(conf.Dests()[:index], conf.Dests()[index+1:]...)
+	toDelete := conf.Dests()[index]
+	// the full slice expression caps capacity so that append copies:
+	// dispatchers may still be iterating over the old backing array
+	newDests := append(conf.Dests()[:index:index], conf.Dests()[index+1:]...)
 	newConf := extendConfig(baseConfig{*conf.Matcher(), newDests})
 	route.config.Store(newConf)
+	toDelete.Shutdown()
 	return nil
 }
 
